@@ -255,7 +255,12 @@ func runWorker(bin, prop, tier string, seed uint64, from, stride, n int, budget 
 	sh := fmt.Sprintf("ulimit -v %d; exec \"$0\" \"$@\"", 24*1024*1024)
 	cmd := exec.Command("/bin/sh", append([]string{"-c", sh, bin}, args...)...)
 	cmd.Dir = verifDir
-	cmd.Env = append(os.Environ(), "GOTRACEBACK=all", "GORACE=halt_on_error=1 exitcode=66")
+	// the worker's scratch space (the real directories behind the os.* seams of a run) lives next to the binary and is
+	// removed when the worker has exited, however it exited (a crashed run cannot clean up after itself)
+	tmpDir := filepath.Join(filepath.Dir(bin), fmt.Sprintf("tmp-w%d-%d", from, time.Now().UnixNano()))
+	_ = os.MkdirAll(tmpDir, 0o755)
+	defer os.RemoveAll(tmpDir)
+	cmd.Env = append(os.Environ(), "GOTRACEBACK=all", "GORACE=halt_on_error=1 exitcode=66", "TMPDIR="+tmpDir)
 	stdout, _ := cmd.StdoutPipe()
 	var stderr bytes.Buffer
 	cmd.Stderr = &stderr
